@@ -237,7 +237,9 @@ def run(ctx: Ctx) -> None:
     ctx.ob("C16.R2", sb, "sends the caller's request and uses the caller's timeout", norm(b["messages"]) == "(request,)" and norm(b["timeout"]) == "timeout", f"{norm(b['messages'])} {norm(b['timeout'])}")
     g = cfg_of(ctx, sb)
     rets = [n for n in g.reachable() if isinstance(n.ast, ast.Return)]
-    rcc = client.methods["_raise_for_ble_connection_change"]
+    # the connection-change check: a method of the client or a function of its module (it uses no client state)
+    rcc = client.methods.get("_raise_for_ble_connection_change") or ctx.repo.try_func("client", "_raise_for_ble_connection_change")
+    ctx.require(rcc is not None, "the connection-change check (_raise_for_ble_connection_change) was not found")
 
     def evs(n: Node):
         out = []
